@@ -3,12 +3,16 @@
 //! running the extracted Coq model).
 use std::io::{BufRead, Write};
 
+mod common;
 mod s_c15;
+mod s_rd;
 
 fn dispatch(line: &str) -> String {
     let toks: Vec<&str> = line.split(' ').filter(|t| !t.is_empty()).collect();
     match toks.first().copied() {
         Some("c15") => s_c15::run(&toks[1..]),
+        Some("rd") => s_rd::run(&toks[1..]),
+        Some("o_rd") => s_rd::oracle(&toks[1..]),
         Some(s) => format!("HARNESS-ERROR unknown stream {s}"),
         None => String::new(),
     }
@@ -18,7 +22,7 @@ fn main() {
     let args: Vec<String> = std::env::args().collect();
     let file = std::fs::File::open(&args[1]).expect("case file");
     // keep panic messages out of stderr noise; cases catch panics themselves
-    std::panic::set_hook(Box::new(|_| {}));
+    if std::env::var("HARNESS_VERBOSE").is_err() { std::panic::set_hook(Box::new(|_| {})); }
     let stdout = std::io::stdout();
     let mut out = std::io::BufWriter::new(stdout.lock());
     for line in std::io::BufReader::new(file).lines() {
@@ -29,5 +33,6 @@ fn main() {
         let res = std::panic::catch_unwind(|| dispatch(&line));
         let res = res.unwrap_or_else(|_| "HARNESS-PANIC".to_string());
         writeln!(out, "{res}").unwrap();
+        out.flush().unwrap(); // a later case may abort the process
     }
 }
